@@ -24,6 +24,7 @@ type c07Req struct {
 	LaterMs int    `json:"later_ms"`
 	Answer  string `json:"answer"` // once | delayed | twice | burst | never | foreign | error | at-ctx-end (arrives at the instant the context ends)
 	DelayMs int    `json:"delay_ms"`
+	Retry   bool   `json:"retry_with_same_id,omitempty"` // unanswered: once its context is over the caller asks again with the same id
 }
 
 type c07Scenario struct {
@@ -92,6 +93,11 @@ func runC07(e *Engine, g G, o RunOpt) RunInfo {
 			r.LaterMs = []int{5, 60, 900}[g.N("laterms", 3)]
 			r.Answer = []string{"once", "delayed", "twice", "burst", "never", "foreign", "error", "at-ctx-end"}[g.Weighted("answer", 6, 3, 3, 3, 2, 2, 2, 3)]
 			r.DelayMs = []int{2, 13, 120, 1100}[g.N("delayms", 4)]
+			if r.Ctx != "open" && r.Read == "now" && g.Pct("retry", 25) {
+				// the classic retry: no answer in time, same request (same id) again
+				r.Answer = "never"
+				r.Retry = true
+			}
 			if o.Avoiding("abandoned-channel-blocks-route") && r.Read == "abandon" {
 				r.Read = "later"
 			}
@@ -169,6 +175,17 @@ func runC07(e *Engine, g G, o RunOpt) RunInfo {
 					return false
 				}
 				id := el.Attr("id")
+				if _, again := written[id]; again && plan[id].Retry {
+					// the retry of an unanswered request: answered at once
+					rid := id + "#retry"
+					written[rid] = e.Now()
+					raw, rs := resp(id, "result")
+					rs.id = rid
+					rs.sentAt = e.Now()
+					sent = append(sent, rs)
+					c.Send(raw)
+					return true
+				}
 				written[id] = e.Now()
 				r, ok := plan[id]
 				if !ok && strings.HasPrefix(id, "h-") {
@@ -377,6 +394,39 @@ func runC07(e *Engine, g G, o RunOpt) RunInfo {
 					switch r.Read {
 					case "now":
 						read(5*time.Second + 17*time.Microsecond)
+						if r.Retry && gots[r.ID] == nil && ctx.Err() != nil {
+							rid := r.ID + "#retry"
+							ctx2, cancel2 := context.WithCancel(context.Background())
+							cancels = append(cancels, cancelAt{at: e.Now() + 24*time.Hour, fn: cancel2, id: rid})
+							ctxEnd[rid] = -1
+							reqByIDDyn[rid] = c07Req{ID: rid, Ctx: "open", Read: "now", Answer: "once"}
+							iq2, _ := stanza.NewIQ(stanza.Attrs{Type: stanza.IQTypeGet, Id: r.ID, To: SimDomain})
+							iq2.Payload = &stanza.Version{}
+							var ch2 chan stanza.IQ
+							err2, _ := e.Call("SendIQ "+rid, func() error {
+								var err error
+								ch2, err = sender.SendIQ(ctx2, iq2)
+								return err
+							})
+							callErr[rid] = err2
+							e.Probe("c07.retry_with_same_id")
+							if err2 == nil && ch2 != nil {
+								chans[rid] = ch2
+								select {
+								case v, ok := <-ch2:
+									e.Yield("app.retry.read")
+									if ok {
+										gots[rid] = &c07Got{req: rid, marker: v.From, id: v.Id, at: e.Now(), closed: true}
+										e.Logf("app.recv", "%s got iq id=%s from=%s", rid, v.Id, v.From)
+									} else {
+										e.Logf("app.chan", "%s: channel closed without a value", rid)
+									}
+								case <-time.After(10*time.Second + 23*time.Microsecond):
+									e.Yield("app.retry.timeout")
+									e.Logf("app.readtimeout", "%s", rid)
+								}
+							}
+						}
 					case "later":
 						e.Sleep(time.Duration(r.LaterMs)*time.Millisecond + 91*time.Microsecond)
 						read(5*time.Second + 17*time.Microsecond)
